@@ -30,7 +30,10 @@ Init == vcase = 0 /\ vres = [ok |-> FALSE, cls |-> "none"]
 Next == vcase = 0 /\ \E j \in MyIdx : vcase' = j /\ vres' = ResTab[j]
 \* before remapping every atom with a named centre is one group: after it the total is preserved
 \* up to the remap coefficients - checked as: every count is non-negative and the bag is non-empty
-Sane == (vcase # 0 /\ vres.ok) => \A x \in DOMAIN vres.bag : RLe(RZero, vres.bag[x])
+\* counts are non-negative whenever the scheme's remap coefficients are (a negative coefficient is a legitimate linear substitution)
+NonNegScheme(s) == \A k \in 1..Len(In.schemes[s].remaps) :
+                     \A r \in 1..Len(In.schemes[s].remaps[k].rules) : In.schemes[s].remaps[k].rules[r][1] >= 0
+Sane == (vcase # 0 /\ vres.ok /\ NonNegScheme(Pairs[vcase][1])) => \A x \in DOMAIN vres.bag : RLe(RZero, vres.bag[x])
 Export == JsonSerialize(IOEnv.VOUT,
   [res |-> [j \in MyIdx |->
      IF ResTab[j].ok THEN [ok |-> TRUE, bag |-> {<<x, ResTab[j].bag[x]>> : x \in DOMAIN ResTab[j].bag},
